@@ -74,6 +74,12 @@ pub open spec fn entries_of<V>(s: Seq<(SynTypePath, V)>, m: Map<SynTypePath, V>)
 }
 
 impl<V> PMap<V> {
+    #[verifier::external_body]
+    pub fn contains_key(&self, k: &SynTypePath) -> (r: bool) ensures r == self@.contains_key(*k) { unimplemented!() }
+    #[verifier::external_body]
+    pub fn get(&self, k: &SynTypePath) -> (r: Option<&V>)
+        ensures self@.contains_key(*k) ==> r == Some(&self@[*k]), !self@.contains_key(*k) ==> r is None,
+    { unimplemented!() }
     pub uninterp spec fn view(&self) -> Map<SynTypePath, V>;
     #[verifier::external_body]
     pub fn iter(&self) -> (r: PairIter<'_, V>) ensures r.pos() == 0, entries_of(r.seq(), self@) { unimplemented!() }
@@ -89,6 +95,13 @@ impl<'a, V> PairIter<'a, V> {
             old(self).pos() < old(self).seq().len() ==> r is Some && *((r->0).0) == old(self).seq()[old(self).pos()].0
                 && *((r->0).1) == old(self).seq()[old(self).pos()].1 && final(self).pos() == old(self).pos() + 1,
             old(self).pos() >= old(self).seq().len() ==> r is None && final(self).pos() == old(self).pos(),
+    { unimplemented!() }
+    /// `Iterator::filter(f)`: ASSUMED only that the result is a fresh iterator; which elements it keeps is NOT specified here, so
+    /// nothing can be proved about a filtered iteration -- such an edit is decided by the concrete oracle alone (exit 1 only with a
+    /// failing input, otherwise exit 2)
+    #[verifier::external_body]
+    pub fn filter<F: Fn(&(&'a SynTypePath, &'a V)) -> bool>(self, f: F) -> (r: PairIter<'a, V>)
+        ensures r.pos() == 0
     { unimplemented!() }
     #[verifier::external_body]
     pub fn chain(self, other: PairIter<'a, V>) -> (r: PairIter<'a, V>)
@@ -130,6 +143,11 @@ impl SMap {
     pub fn iter(&self) -> (r: SubIter<'_>) ensures r.pos() == 0, sub_entries_of(r.seq(), self@) { unimplemented!() }
 }
 impl<'a> SubIter<'a> {
+    /// `Iterator::filter(f)`: see PairIter::filter
+    #[verifier::external_body]
+    pub fn filter<F: Fn(&(&'a Vec<String>, &'a Substitute)) -> bool>(self, f: F) -> (r: SubIter<'a>)
+        ensures r.pos() == 0
+    { unimplemented!() }
     pub uninterp spec fn seq(&self) -> Seq<(Vec<String>, Substitute)>;
     pub uninterp spec fn pos(&self) -> int;
     #[verifier::external_body]
